@@ -70,6 +70,12 @@ func NewPrefix(ssid Ssid, from int64) ID {
 	return id
 }
 
+// IsValid checks whether the ID is long enough to carry its fixed part and at least the
+// contract of the ssid. Anything shorter cannot be an ID created by NewID.
+func (id ID) IsValid() bool {
+	return len(id) >= fixed+4
+}
+
 // SetTime sets the time on the ID, useful for testing.
 func (id ID) SetTime(t int64) {
 	binary.BigEndian.PutUint32(id[4:8], math.MaxUint32-uint32(t-offset))
